@@ -353,7 +353,9 @@ def elite_sweep(chk: Check):
         if opt in gen.NON_ELITIST:
             continue
         for _ in range(120 if thorough else 12):
-            specs.append({"opt": opt, "desc": gen.task_desc(rng, rng.choice(["contmulti", "cont"]), dim=rng.choice([1, 2, 3, 5])),
+            d = gen.task_desc(rng, rng.choice(["contmulti", "cont"]), dim=rng.choice([1, 2, 3, 5]))
+            d["scale"] = rng.choice([1.0, 1.0, 1.0, 1e-20, 1e12])
+            specs.append({"opt": opt, "desc": d,
                           "cfg": gen.config_dict(rng, opt, scale=1, max_cycles=(rng.choice([40, 60]) if thorough else 40), stop="cycles", jit=rng.random() < 0.3)})
     with cf.ProcessPoolExecutor(14) as ex:
         outs = [r for r in ex.map(_elite_run, specs, chunksize=6) if r]
